@@ -4,7 +4,7 @@ from vt import detsched as ds, wl_c27, sysx
 
 ID = 'C27'
 ENGINE = 'detsched'
-TECHNIQUE = 'runtime monitoring under a deterministic cooperative scheduler (opcode-level yield points in miros/thread_safe_attributes.py and in the workload statements): serial-equivalence oracle, exception and deadlock detection'
+TECHNIQUE = 'runtime monitoring under a deterministic cooperative scheduler (opcode-level yield points in miros/thread_safe_attributes.py and in the workload statements): serial-equivalence oracle, exception and deadlock detection; a few small scenarios per run are enumerated systematically (every schedule within a delay bound, vt/sysx.py)'
 RULE = ('2-4 real threads execute 1-3 statements each on one shared object: o.a += c, o.a -= c, o.a *= c, o.a = k, x = o.a (and o.b += c on a '
         'second attribute); the statements are real source lines of vt/wl_c27.py; detsched switches at every bytecode boundary of '
         'ThreadSafeAttribute.__get__/__set__ and of the statements themselves (so between the descriptor\'s get and set), seeded random / '
